@@ -105,18 +105,77 @@ def split_lines(path, prefix, shards, scratch, rate, rng, group_walks=False):
     return [fh.name for fh in files], n, kept
 
 
-def replay(shard, kind, n, prop, timeout):
-    cmd = [os.path.join(ROOT, "bin", "replay"), "-kind", kind, "-n", str(n), "-prop", prop, "-in", shard]
+def replay(shard, job, prop, timeout):
+    """Run one replay worker over a shard. A worker that dies (the code under test can kill the process:
+    a panic in a server goroutine) is attributed to the behaviour in its journal, which becomes a
+    violation record of class "crash"; the rest of the shard is then replayed by a new worker."""
+    tool = job.get("tool", "replay")
+    base = [os.path.join(ROOT, "bin", tool), "-kind", job["kind"], "-n", str(job["n"]), "-prop", prop, "-in", shard]
+    if tool == "replay":
+        try:
+            p = subprocess.run(base, capture_output=True, text=True, timeout=timeout, env=ENV)
+        except subprocess.TimeoutExpired:
+            raise Infra("replay timed out on " + shard)
+        if p.returncode not in (0, 1):
+            raise Infra("replay died (rc=%d) on %s: %s" % (p.returncode, shard, p.stdout[-2000:] + p.stderr[-2000:]))
+        try:
+            return json.loads(p.stdout.strip().splitlines()[-1])
+        except Exception:
+            raise Infra("replay produced no summary on %s: %s" % (shard, p.stdout[-500:]))
+    total = {}
+    skip = 0
+    journal = shard + ".journal"
+    errf = shard + ".stderr"
+    for attempt in range(12):
+        env = dict(ENV, VERIF_STDERR="1")
+        with open(errf, "w") as ef:
+            try:
+                p = subprocess.run(base + ["-journal", journal, "-skip", str(skip)], stdout=subprocess.PIPE, stderr=ef, text=True,
+                                   timeout=timeout, env=env)
+            except subprocess.TimeoutExpired:
+                raise Infra("%s timed out on %s" % (tool, shard))
+        if p.returncode in (0, 1):
+            try:
+                merge(total, json.loads(p.stdout.strip().splitlines()[-1]))
+            except Exception:
+                raise Infra("%s produced no summary on %s: %s" % (tool, shard, p.stdout[-500:]))
+            break
+        if p.returncode == 3 or not os.path.exists(journal):
+            raise Infra("%s could not run (rc=%d): %s %s" % (tool, p.returncode, p.stdout[-300:], tail(errf, 300)))
+        pl = panic_line(errf)
+        if pl is None:
+            raise Infra("%s died without a Go panic (rc=%d): %s" % (tool, p.returncode, tail(errf, 600)))
+        j = json.load(open(journal))
+        merge(total, j["partial"])
+        why = "the process died while serving this behaviour: " + pl
+        v = j["record"]
+        v["why"] = why
+        v["hash"] = hashlib.sha1((json.dumps(v["steps"], sort_keys=True) + "crash").encode()).hexdigest()[:16]
+        total.setdefault("violations", []).append(v)
+        total["nviol"] = total.get("nviol", 0) + 1
+        total["behaviours"] = total.get("behaviours", 0) + 1
+        skip = j["nth"]
+    for f in (journal, errf):
+        if os.path.exists(f):
+            os.remove(f)
+    return total
+
+
+def tail(path, n=1500):
     try:
-        p = subprocess.run(cmd, capture_output=True, text=True, timeout=timeout, env=ENV)
-    except subprocess.TimeoutExpired:
-        raise Infra("replay timed out on " + shard)
-    if p.returncode not in (0, 1):
-        raise Infra("replay died (rc=%d) on %s: %s" % (p.returncode, shard, p.stdout[-2000:] + p.stderr[-2000:]))
-    try:
-        return json.loads(p.stdout.strip().splitlines()[-1])
+        return open(path, errors="replace").read()[-n:]
     except Exception:
-        raise Infra("replay produced no summary on %s: %s" % (shard, p.stdout[-500:]))
+        return ""
+
+
+def panic_line(path):
+    try:
+        for line in open(path, errors="replace"):
+            if line.startswith("panic:") or line.startswith("fatal error:"):
+                return line.strip()
+    except Exception:
+        pass
+    return None
 
 
 def merge(total, s):
@@ -151,7 +210,7 @@ def run_job(job, prop, tier, seed, scratch, ev):
         outs = []
         if mode == "edge":
             out = os.path.join(scratch, job["cfg"] + ".out")
-            rc, secs = tlc(scratch, job["cfg"] + ".cfg", job.get("module", "OrdaReplicaDump.tla"), [], out, job.get("timeout", 900))
+            rc, secs = tlc(scratch, job["cfg"] + ".cfg", job.get("dump_module", "OrdaReplicaDump.tla"), [], out, job.get("timeout", 900))
             st = tlc_stats(out)
             if not st["ok"]:
                 raise Infra("TLC did not complete %s: %s\n%s" % (job["cfg"], st["error"], open(out, errors="replace").read()[-3000:]))
@@ -165,7 +224,7 @@ def run_job(job, prop, tier, seed, scratch, ev):
 
             def one(i):
                 o = os.path.join(scratch, "%s.sim%d.out" % (job["cfg"], i))
-                rc, secs = tlc(scratch, job["cfg"] + ".cfg", job.get("module", "OrdaReplicaDump.tla"),
+                rc, secs = tlc(scratch, job["cfg"] + ".cfg", job.get("dump_module", "OrdaReplicaDump.tla"),
                                ["-simulate", "num=%d" % num, "-depth", str(depth), "-seed", str(seed * 1000 + i + 1)], o,
                                job.get("timeout", 900), workers=1)
                 return o, rc, secs
@@ -197,7 +256,7 @@ def run_job(job, prop, tier, seed, scratch, ev):
         rec.update(lines=total_lines, replayed_lines=kept)
         tot = {}
         with cf.ThreadPoolExecutor(max_workers=NCPU) as ex:
-            for s in ex.map(lambda sh: replay(sh, kind, job["n"], prop, job.get("replay_timeout", 1200)), shards):
+            for s in ex.map(lambda sh: replay(sh, job, prop, job.get("replay_timeout", 1200)), shards):
                 merge(tot, s)
         for sh in shards:
             os.remove(sh)
@@ -227,6 +286,14 @@ def confirm(v, scratch):
         return True
     path = os.path.join(scratch, "confirm-%s.json" % v["hash"])
     json.dump(v, open(path, "w"))
+    tool = v.get("tool", "replay")
+    if tool != "replay":
+        # a crash that needs a particular goroutine timing is re-run many times (each run is a few ms)
+        for _ in range(60 if v.get("class") == "crash" else 4):
+            p = subprocess.run([os.path.join(ROOT, "bin", tool), "-replayfile", path], capture_output=True, text=True, env=ENV)
+            if p.returncode == 1 or (v.get("class") == "crash" and p.returncode not in (0, 1)):
+                return True
+        return False
     # the code under test may itself be nondeterministic (e.g. Go map iteration order): a violation counts
     # as reproduced if one of a few fresh re-runs fails again
     for _ in range(8):
@@ -251,8 +318,9 @@ def main():
     try:
         build()
         if args.replay:
-            p = subprocess.run([os.path.join(ROOT, "bin", "replay"), "-replayfile", args.replay, "-v"], env=ENV)
-            if p.returncode == 1:
+            tool = json.load(open(args.replay)).get("tool", "replay")
+            p = subprocess.run([os.path.join(ROOT, "bin", tool), "-replayfile", args.replay, "-v"], env=ENV)
+            if p.returncode != 0:
                 print("VIOLATION property=%s replay=%s" % (prop, args.replay))
             sys.exit(p.returncode)
         jobs = plan.jobs(prop, tier)
@@ -308,6 +376,8 @@ def main():
                 continue
             if not confirm(v, scratch):
                 print("UNCONFIRMED (not reproduced in a fresh worker): %s" % v.get("why"))
+                os.makedirs(os.path.join(ROOT, "evidence", "unconfirmed"), exist_ok=True)
+                json.dump(v, open(os.path.join(ROOT, "evidence", "unconfirmed", "%s-%s.json" % (prop, v.get("hash", "x"))), "w"), indent=1)
                 rc = max(rc, 2)
                 continue
             confirmed += 1
